@@ -51,7 +51,7 @@ func (r *BasicPrivateTokenRequest) Unmarshal(data []byte) bool {
 	if !s.ReadUint16(&tokenType) ||
 		tokenType != BasicPrivateTokenType ||
 		!s.ReadUint8(&r.TokenKeyID) ||
-		!s.ReadBytes(&r.BlindedReq, 48) {
+		!s.ReadBytes(&r.BlindedReq, Ne) {
 		return false
 	}
 
